@@ -125,6 +125,24 @@ Print Assumptions less_dup.
 Print Assumptions less_dup_head.
 Print Assumptions op_sort_dup.
 
+(* Finding D15 (C06), recorded in KNOWN_FINDINGS.txt: the full statement "numbers numerically" is FALSE of the
+   faithful model (and of the code) for integers beyond 2^53 - both compare integer cells through their
+   float64 image, so two different integers with the same image are a tie.  The witness: an ascending sort
+   whose result holds 2^53+1 before 2^53.  (Replayed on the implementation by the C06 stream
+   "wide-integers-of-different-lengths".) *)
+Definition fr_wide : frame :=
+  [(vs [107], (vs [107], [CI KInt 9007199254740992; CI KInt 9007199254740993; CI KInt 5]))]%N%Z.
+Theorem sort_wide_integers_refuted :
+  exists (f : frame) (k : str) (x y : Z),
+    wf_frame f = true /\ Z.lt y x /\
+    op_sort O_none f [k] true = Ok [(k, (k, [CI KInt 5; CI KInt x; CI KInt y]))]
+    /\ less O_none f [k] true 0 1 = false /\ less O_none f [k] true 1 0 = false.
+Proof.
+  exists fr_wide, (vs [107])%N, 9007199254740993%Z, 9007199254740992%Z.
+  vm_compute. repeat split; reflexivity.
+Qed.
+Print Assumptions sort_wide_integers_refuted.
+
 (* ================================================================== *)
 (* 2. Keys of different types never match                              *)
 (* ================================================================== *)
